@@ -1,5 +1,204 @@
-import Model.Srtm
+import Proofs.Lemmas.Arith
+import Proofs.Lemmas.Lists
+import Proofs.Lemmas.Mosaic
 import Proofs.Audit
+
+/-!
+# C20 — SRTM30 elevation mosaics are seamless and match the tiles cell by cell
+
+Property theorems only (helper lemmas: `Proofs/Lemmas/{Arith,Lists,Mosaic}.lean`).  They speak
+about the exact-rational model `Model/Srtm.lean` of `typhon/topography.py`; all of them hold for
+**every** rectangle with `-60 ≤ lat_min < lat_max ≤ 90`, `-180 ≤ lon_min < lon_max ≤ 180`
+(`Valid`): aligned or not, thinner than a cell, over any number of tiles, on tile borders, at
+±180°, and for **every** tile content `pix`.
+-/
+
 open Srtm
-theorem C20_stub : (1:Nat) = 1 := rfl
-assert_axioms C20_stub
+
+/-! ## the grid returned by `get_native_grids` -/
+
+/-- Latitudes / longitudes are consecutive SRTM30 cell centres: the `i`-th latitude is the centre
+`90 − (2(k₀+i) − 1)/240` of global row `k₀ + i` (1-based from 90° N), the `j`-th longitude the
+centre `−180 + (2(c₀+j) + 1)/240` of global column `c₀ + j`; spacing `1/120`, latitude
+descending, longitude ascending.  (Any rectangle.) -/
+theorem C20_grid_consecutive (r : Rect) :
+    (∃ k0 : ℤ, ∀ i (h : i < (nativeGrids r).1.length),
+        (nativeGrids r).1[i] = 90 - (2 * ((k0 + i : ℤ) : ℚ) - 1) / 240) ∧
+    (∃ c0 : ℤ, ∀ j (h : j < (nativeGrids r).2.length),
+        (nativeGrids r).2[j] = -180 + (2 * ((c0 + j : ℤ) : ℚ) + 1) / 240) ∧
+    (∀ i (h : i + 1 < (nativeGrids r).1.length),
+        (nativeGrids r).1[i + 1] = (nativeGrids r).1[i] - 1 / 120) ∧
+    (∀ j (h : j + 1 < (nativeGrids r).2.length),
+        (nativeGrids r).2[j + 1] = (nativeGrids r).2[j] + 1 / 120) := by
+  refine ⟨⟨(nativeRows r.latMin r.latMax).1, ?_⟩, ⟨(nativeCols r.lonMin r.lonMax).1, ?_⟩, ?_, ?_⟩
+  · intro i h
+    simp only [nativeGrids, List.getElem_map, getElem_intRange, rowCentre, dlat_eq]
+    push_cast; ring
+  · intro j h
+    simp only [nativeGrids, List.getElem_map, getElem_intRange, colCentre, dlon_eq]
+    push_cast; ring
+  · intro i h
+    simp only [nativeGrids, List.getElem_map, getElem_intRange, rowCentre, dlat_eq]
+    push_cast; ring
+  · intro j h
+    simp only [nativeGrids, List.getElem_map, getElem_intRange, colCentre, dlon_eq]
+    push_cast; ring
+
+/-- The block is non-empty. -/
+theorem C20_nonempty (r : Rect) (hv : Valid r) :
+    (nativeGrids r).1 ≠ [] ∧ (nativeGrids r).2 ≠ [] :=
+  ⟨(grids_shape r hv).lats_ne, (grids_shape r hv).lons_ne⟩
+
+/-- The block covers the rectangle: the outer edges of the first / last cells (centre ± half a
+cell) enclose it. -/
+theorem C20_covers (r : Rect) (hv : Valid r) :
+    ∃ (h1 : (nativeGrids r).1 ≠ []) (h2 : (nativeGrids r).2 ≠ []),
+      r.latMax ≤ (nativeGrids r).1.head h1 + 1 / 240 ∧
+      (nativeGrids r).1.getLast h1 - 1 / 240 ≤ r.latMin ∧
+      (nativeGrids r).2.head h2 - 1 / 240 ≤ r.lonMin ∧
+      r.lonMax ≤ (nativeGrids r).2.getLast h2 + 1 / 240 := by
+  have s := grids_shape r hv
+  refine ⟨s.lats_ne, s.lons_ne, ?_, ?_, ?_, ?_⟩
+  · rw [s.head_lat]; linarith [s.top.1]
+  · rw [s.last_lat]; linarith [s.bottom.2]
+  · rw [s.head_lon]; linarith [s.left.1]
+  · rw [s.last_lon]; linarith [s.right.2]
+
+/-- … and extends beyond it by less than one cell (`1/120`°) on each side. -/
+theorem C20_tight (r : Rect) (hv : Valid r) :
+    ∃ (h1 : (nativeGrids r).1 ≠ []) (h2 : (nativeGrids r).2 ≠ []),
+      (nativeGrids r).1.head h1 + 1 / 240 - r.latMax < 1 / 120 ∧
+      r.latMin - ((nativeGrids r).1.getLast h1 - 1 / 240) < 1 / 120 ∧
+      r.lonMin - ((nativeGrids r).2.head h2 - 1 / 240) < 1 / 120 ∧
+      (nativeGrids r).2.getLast h2 + 1 / 240 - r.lonMax < 1 / 120 := by
+  have s := grids_shape r hv
+  refine ⟨s.lats_ne, s.lons_ne, ?_, ?_, ?_, ?_⟩
+  · rw [s.head_lat]; linarith [s.top.2]
+  · rw [s.last_lat]; linarith [s.bottom.1]
+  · rw [s.head_lon]; linarith [s.left.2]
+  · rw [s.last_lon]; linarith [s.right.1]
+
+/-! ## `get_tiles` -/
+
+/-- the open interiors of the rectangle and of the tile have a common point -/
+def InteriorsMeet (r : Rect) (t : Tile) : Prop :=
+  ∃ la lo : ℚ, r.latMin < la ∧ la < r.latMax ∧ r.lonMin < lo ∧ lo < r.lonMax ∧
+    (t.latMin : ℚ) < la ∧ la < t.latMax ∧ (t.lonMin : ℚ) < lo ∧ lo < t.lonMax
+
+/-- `get_tiles` names exactly the tiles of the table whose area intersects the rectangle, in
+table order and without repetition (longitudes given in `[-180, 180]`). -/
+theorem C20_tiles_spec (r : Rect) (h1 : -180 ≤ r.lonMin) (h2 : r.lonMin < 180)
+    (h3 : -180 < r.lonMax) (h4 : r.lonMax ≤ 180) :
+    (∀ t, t ∈ getTiles r ↔ t ∈ tiles ∧ InteriorsMeet r t) ∧
+    (getTiles r).Sublist tiles ∧ (getTiles r).Nodup := by
+  have hsub : (getTiles r).Sublist tiles := by unfold getTiles; exact List.filter_sublist
+  refine ⟨?_, hsub, hsub.nodup tiles_nodup⟩
+  intro t
+  unfold getTiles
+  simp only [List.mem_filter, normLonMin_id h1 h2, normLonMax_id h3 h4, doOverlap, boundsRect,
+    Bool.and_eq_true, decide_eq_true_eq, InteriorsMeet]
+  constructor
+  · rintro ⟨ht, hla, hlo⟩
+    have hla := of_decide_eq_true hla
+    refine ⟨ht, (max r.latMin t.latMin + min r.latMax t.latMax) / 2,
+      (max r.lonMin t.lonMin + min r.lonMax t.lonMax) / 2, ?_⟩
+    have a1 := le_max_left r.latMin (t.latMin : ℚ)
+    have a2 := le_max_right r.latMin (t.latMin : ℚ)
+    have a3 := min_le_left r.latMax (t.latMax : ℚ)
+    have a4 := min_le_right r.latMax (t.latMax : ℚ)
+    have b1 := le_max_left r.lonMin (t.lonMin : ℚ)
+    have b2 := le_max_right r.lonMin (t.lonMin : ℚ)
+    have b3 := min_le_left r.lonMax (t.lonMax : ℚ)
+    have b4 := min_le_right r.lonMax (t.lonMax : ℚ)
+    refine ⟨?_, ?_, ?_, ?_, ?_, ?_, ?_, ?_⟩ <;> linarith
+  · rintro ⟨ht, la, lo, c1, c2, c3, c4, c5, c6, c7, c8⟩
+    exact ⟨ht, decide_eq_true (lt_trans (max_lt c1 c5) (lt_min c2 c6)), lt_trans (max_lt c3 c7) (lt_min c4 c8)⟩
+
+/-! ## `get_native_grids` of a tile's own bounds = `get_grids` of that tile -/
+
+theorem C20_native_eq_grids : ∀ t ∈ tiles, nativeGrids (boundsRect t) = (tileLats t, tileLons t) :=
+  native_eq_grids
+
+/-! ## tile cache -/
+
+/-- One request: the tile is fetched iff it is not in the cache; afterwards it is cached and
+nothing else changed. -/
+theorem C20_download_iff_not_cached (cache : List ℕ) (n : ℕ) :
+    ((getTile cache n).2 = true ↔ n ∉ cache) ∧
+    (∀ m, m ∈ (getTile cache n).1 ↔ m ∈ cache ∨ m = n) := by
+  unfold getTile
+  by_cases h : n ∈ cache
+  · simp only [h, if_true, not_true_eq_false, iff_false]
+    refine ⟨by simp, fun m => ⟨Or.inl, ?_⟩⟩
+    rintro (hm | rfl)
+    · exact hm
+    · exact h
+  · simp only [h, if_false, not_false_eq_true, List.mem_cons, true_and]
+    intro m; tauto
+
+/-- Any request sequence on any (warm or cold) cache: the downloads are pairwise distinct (no tile
+is fetched twice), they are exactly the requested tiles that were not cached at the start, and the
+final cache holds the old content plus everything requested. -/
+theorem C20_download_once (cache reqs : List ℕ) :
+    (runRequests cache reqs).2.Nodup ∧
+    (∀ n, n ∈ (runRequests cache reqs).2 ↔ n ∈ reqs ∧ n ∉ cache) ∧
+    (∀ n, n ∈ (runRequests cache reqs).1 ↔ n ∈ cache ∨ n ∈ reqs) := by
+  induction reqs generalizing cache with
+  | nil => simp [runRequests]
+  | cons a as ih =>
+    by_cases h : a ∈ cache
+    · obtain ⟨i1, i2, i3⟩ := ih cache
+      have e : runRequests cache (a :: as) = runRequests cache as := by
+        simp [runRequests, getTile, h]
+      rw [e]
+      refine ⟨i1, fun n => ?_, fun n => ?_⟩
+      · rw [i2 n]; simp only [List.mem_cons]
+        constructor
+        · rintro ⟨x, y⟩; exact ⟨Or.inr x, y⟩
+        · rintro ⟨x | x, y⟩
+          · subst x; exact absurd h y
+          · exact ⟨x, y⟩
+      · rw [i3 n]; simp only [List.mem_cons]
+        constructor
+        · rintro (x | x)
+          · exact Or.inl x
+          · exact Or.inr (Or.inr x)
+        · rintro (x | x | x)
+          · exact Or.inl x
+          · subst x; exact Or.inl h
+          · exact Or.inr x
+    · obtain ⟨i1, i2, i3⟩ := ih (a :: cache)
+      have e : runRequests cache (a :: as) =
+          ((runRequests (a :: cache) as).1, a :: (runRequests (a :: cache) as).2) := by
+        simp [runRequests, getTile, h]
+      rw [e]
+      refine ⟨?_, fun n => ?_, fun n => ?_⟩
+      · simp only [List.nodup_cons]
+        refine ⟨?_, i1⟩
+        rw [i2 a]; simp
+      · simp only [List.mem_cons, i2 n, not_or]
+        constructor
+        · rintro (rfl | ⟨x, y, z⟩)
+          · exact ⟨Or.inl rfl, h⟩
+          · exact ⟨Or.inr x, z⟩
+        · rintro ⟨rfl | x, y⟩
+          · exact Or.inl rfl
+          · by_cases hn : n = a
+            · exact Or.inl hn
+            · exact Or.inr ⟨x, hn, y⟩
+      · simp only [i3 n, List.mem_cons]
+        tauto
+
+/-! ## non-vacuity of the easy part -/
+
+/-- a rectangle straddling the corner of four tiles at 40° N, 140° W, unaligned with the grid -/
+def rect4 : Rect := ⟨3999 / 100, -14001 / 100, 4001 / 100, -13999 / 100⟩
+
+example : Valid rect4 := by constructor <;> norm_num [rect4]
+#guard (getTiles rect4).length = 4
+#guard (nativeGrids rect4).1.length = 4 ∧ (nativeGrids rect4).2.length = 4
+#guard (runRequests [1, 2] [3, 1, 3, 4, 2]).2 = [3, 4]
+#guard nativeGrids (boundsRect ⟨-10, 20, 40, 60⟩) = (tileLats ⟨-10, 20, 40, 60⟩, tileLons ⟨-10, 20, 40, 60⟩)
+
+assert_axioms C20_grid_consecutive C20_nonempty C20_covers C20_tight C20_tiles_spec
+  C20_native_eq_grids C20_download_iff_not_cached C20_download_once
